@@ -17,3 +17,16 @@ pub open spec fn enum_ctor_ok(enum_name: TastIdent, d: EnumDef, index: int, r: (
     (r.0 matches Constructor::Enum(c) && c.type_name == enum_name && c.variant == d.variants@[index].0 && c.index == index)
     && ctor_type(d.variants@[index].1@, Ty::TEnum { name: enum_name.0 }, d.generics@, r.1)
 }
+// ---- struct constructors ----
+#[verifier::external_body] pub struct StructTable { _p: u64 }                  // IndexMap<TastIdent, StructDef>
+impl StructTable {
+    pub uninterp spec fn view(&self) -> Map<Seq<char>, StructDef>;
+    #[verifier::external_body] pub fn get(&self, k: &TastIdent) -> (r: Option<&StructDef>) ensures r matches Some(d) ==> self@.contains_key(k.0@) && *d == self@[k.0@], r is None ==> !self@.contains_key(k.0@) { unimplemented!() }
+}
+pub struct TypeEnv { pub structs: StructTable }                                // env::TypeEnv: the table lookup_struct_constructor reads
+pub open spec fn field_types(fs: Seq<(TastIdent, Ty)>, ts: Seq<Ty>) -> bool { ts.len() == fs.len() && forall|i: int| 0 <= i < fs.len() ==> (#[trigger] ts[i]) == fs[i].1 }
+// (the constructor is named after the definition — or after the key it was found under: the table files a definition under its own name)
+pub open spec fn struct_ctor_ok(key: Seq<char>, d: StructDef, r: (Constructor, Ty)) -> bool {
+    (r.0 matches Constructor::Struct(c) && (c.type_name.0@ == d.name.0@ || c.type_name.0@ == key))
+    && exists|ts: Seq<Ty>| #[trigger] field_types(d.fields@, ts) && ctor_type(ts, Ty::TStruct { name: d.name.0 }, d.generics@, r.1)
+}
